@@ -36,7 +36,7 @@ STUB = ["HybridRunner scenario threads run serially (SerialThread)", "agents/mod
 ASSUMPTIONS = ["every agent of a type carries the properties x and n (the property speaks of 'that property over exactly those agents'); a third numeric property y is carried by the agents with odd ids only and is judged for presence, total, minimum and maximum over its carriers, not for its mean",
                "requested states occur at least once during the run (a state that never occurs has no column to compare)"]
 FAULT_KINDS = []
-PROBES = ["rest_run_repopulates_the_scenario", "two_agent_based_managers_in_one_call", "two_scenarios_in_one_frame", "two_scenarios_with_different_recorded_times", "property_carried_by_some_agents_only", "group_with_distinct_min_max_mean", "state_empty_then_populated", "negative_and_fractional_values", "agents_deleted_mid_run",
+PROBES = ["agents_without_properties", "rest_run_repopulates_the_scenario", "two_agent_based_managers_in_one_call", "two_scenarios_in_one_frame", "two_scenarios_with_different_recorded_times", "property_carried_by_some_agents_only", "group_with_distinct_min_max_mean", "state_empty_then_populated", "negative_and_fractional_values", "agents_deleted_mid_run",
           "format_df", "format_dict", "format_json", "negative_stop_time", "two_scenarios_of_a_class_path_manager"]
 EXHAUSTIVE = {"quick": False, "thorough": False}
 PTYPES = ["total", "min", "max", "mean"]
@@ -53,6 +53,8 @@ def generate(spec):
     sc = W.gen_scenario(rng, allow_zero_stop=True)
     # richer populations: the four aggregates should differ
     sc["init"] = [["a", rng.choice([2, 3, 4, 5])], ["b", rng.choice([0, 1, 3])]]
+    if rng.random() < 0.3:
+        sc["init"].append(["c", rng.choice([1, 2, 3])])       # agents that carry no properties at all: they have a state, they count
     via = rng.choice(["direct", "bptk", "bptk", "bptk_class", "bptk_two_managers", "rest_run"])
     sel = {"agents": rng.sample(["a", "b"], rng.choice([1, 2])),
            "states": rng.sample(W.STATES, rng.choice([1, 2, 3])),
@@ -60,6 +62,8 @@ def generate(spec):
            "types": rng.sample(PTYPES, rng.choice([1, 2, 4]))}
     if not sel["properties"]:
         sel["types"] = []
+        if any(t == "c" for t, _ in sc["init"]):
+            sel["agents"] = sorted(set(sel["agents"]) | {"c"})      # counts of the property-less agents in df / dict / json
     case = {"property": PROPERTY, "via": via, "scenario": sc, "selection": sel}
     if via == "bptk_two_managers":
         # two agent-based managers, each with a scenario of the same name; one call over both
@@ -216,6 +220,8 @@ def execute(case):
         res.probe("negative_stop_time")
     if any(p["op"] == "delete" for p in sc["pop"]):
         res.probe("agents_deleted_mid_run")
+    if any(t == "c" and c_ for t, c_ in sc["init"]):
+        res.probe("agents_without_properties")
     if case["via"] == "direct":
         m = W.build_direct(sc)
         try:
